@@ -182,8 +182,19 @@ namespace sim
 				std::string range = it->second;
 				// skip "bytes "
 				range = range.substr(range.find_first_of('=') + 1);
-				start = std::stoll(range.substr(0, range.find('-')));
-				end = std::stoll(range.substr(range.find_first_of('-') + 1)) + 1;
+				std::string const first = range.substr(0, range.find('-'));
+				std::string const last = range.substr(range.find_first_of('-') + 1);
+				if (!first.empty())
+				{
+					// "first-last", or "first-" (up to the end of the content)
+					start = std::stoll(first);
+					if (!last.empty()) end = std::stoll(last) + 1;
+				}
+				else if (!last.empty())
+				{
+					// "-N": the last N bytes
+					start = size - std::stoll(last);
+				}
 			}
 
 			std::string header = "Content-Range: bytes " + std::to_string(start)
